@@ -83,7 +83,7 @@ def build(tier):
     p.sub("E6", r'format!\("\{self_ident\}_\{method_ident\}"\)', "__type_underscore_method(self_ident, method_ident)", count=1,
           why="the Type_method string construction is abstract but kept as a function of its two identifiers")
     p.sub("E6", r"concat_method_ident\.into\(\)", "concat_method_ident", count=1, why="String -> Cow conversion dropped (carrier type is opaque)")
-    p.sub("E7", r"self_path_type\.path\.elements\.last\(\)\.unwrap\(\)", "self_path_type.path.elements.as_slice().last().unwrap()", count=1, why="auto-deref Vec -> slice written out")
+    p.sub("E7", r"self_path_type\.path\.elements\.(last|first)\(\)", r"self_path_type.path.elements.as_slice().\1()", count=None, why="auto-deref Vec -> slice written out")
     p.sub("E12", r"impl_generics: Option<&syn::Generics>", "impl_generics: Option<&syn::Generics>", count=1)
     text = p.render()
     vf.add("pub struct Method { pub x: u8 }\nimpl Method {\n")
